@@ -5,6 +5,6 @@ name, prop, breaks, needs, det = sys.argv[1:6]
 d = os.path.join('/verif/seeded', name)
 log = open(os.path.join(d, 'confirm.log')).read().strip().splitlines()[-1] if os.path.exists(os.path.join(d, 'confirm.log')) else 'not confirmed'
 json.dump({"property": prop, "round": int(os.environ.get("SEED_ROUND", "2")), "breaks": breaks, "needs_to_manifest": needs,
-           "what_was_run": "written by a fresh sub-agent that saw only the property text, in a scratch worktree under /tmp/seed2 (round 2), /tmp/seed3 (round 3) or /tmp/seed4 (round 4) for %s; confirmed by tools/confirm_seed.sh in a second scratch worktree (demo passes without the patch, fails with it, the whole existing workspace suite passes with it): %s" % (prop, log),
+           "what_was_run": "written by a fresh sub-agent that saw only the property text, in a scratch worktree under /tmp/seed2 .. /tmp/seed5 (rounds 2 .. 5) for %s; confirmed by tools/confirm_seed.sh in a second scratch worktree (demo passes without the patch, fails with it, the whole existing workspace suite passes with it): %s" % (prop, log),
            "detected_by": det}, open(os.path.join(d, 'meta.json'), 'w'), indent=1)
 print(name, log)
